@@ -338,3 +338,34 @@ func VerifC17MediaType() {
 const tokenChars = "!#$%&'*+-.^_`|~abcdefghijklmnopqrstuvwxyzABCDEFGHIJKLMNOPQRSTUVWXYZ0123456789"
 
 func isToken(b byte) bool { return verifrt.InSet(b, tokenChars) }
+
+// VerifC17ParsedValues: the value half of "timestamps, URLs ... parsed" with
+// the real parsers (no stub): a well-formed URL or timestamp comes back as
+// the value the JSON string denotes - every component, nothing folded,
+// re-escaped or dropped - and writes itself back as the same string.
+func VerifC17ParsedValues() {
+	urls := []struct{ s, scheme, host, path, query, fragment string }{
+		{"https://h.example/p/q?x=1&y=2#frag", "https", "h.example", "/p/q", "x=1&y=2", "frag"},
+		{"https://h.example:8443/a%2Fb#sec-2", "https", "h.example:8443", "/a/b", "", "sec-2"},
+		{"/relative/ref?x#y", "", "", "/relative/ref", "x", "y"},
+		{"gemini://h.example/x", "gemini", "h.example", "/x", "", ""},
+		{"https://[::1]:8/p#f", "https", "[::1]:8", "/p", "", "f"},
+		{"https://h.example/#", "https", "h.example", "/", "", ""},
+		{"mailto:a@h.example", "mailto", "", "", "", ""},
+	}
+	c := urls[verifrt.Choice("url", len(urls))]
+	u, err := Object{"k": c.s}.GetURL("k")
+	verifrt.Assert(err == nil && u != nil, "well-formed-url-accepted")
+	if u != nil {
+		verifrt.Assert(u.Scheme == c.scheme && u.Host == c.host && u.Path == c.path && u.RawQuery == c.query && u.Fragment == c.fragment, "url-components-as-in-the-json")
+		if c.s != "https://h.example/#" {
+			verifrt.Assert(u.String() == c.s, "url-writes-back-as-the-json-string")
+		}
+	}
+	times := []string{"2024-01-02T03:04:05Z", "1999-12-31T23:59:59.123456789+05:30", "0001-01-01T00:00:00Z", "2024-02-29T12:00:00-08:00"}
+	ts := times[verifrt.Choice("time", len(times))]
+	t, err := Object{"k": ts}.GetTime("k")
+	verifrt.Assert(err == nil, "well-formed-time-accepted")
+	verifrt.Assert(t.Format(time.RFC3339Nano) == ts, "time-writes-back-as-the-json-string")
+	verifrt.Reach("end")
+}
